@@ -140,17 +140,24 @@ def r04b(R):
             'the loop context is popped before its breaks are patched')
     # innermost context
     ctx = A.cls(CONTEXT, 'Context')
-    top = ctx.methods.get('_top_break_list')
-    ok = False
-    if top is not None:
-        for node in walk_own(top.node):
-            if isinstance(node, ast.Return) and node.value is not None:
-                ok = norm(node.value).replace(' ', '') == \
-                    'self._loop_stack[-1].break_list'
     addb = ctx.methods['add_break']
     fixb = ctx.methods['fix_break_addrs']
-    uses_top = all(any('Context._top_break_list' in A.callee_names(m, c)
-                       for c in A.calls_in(m)) for m in (addb, fixb))
+
+    def break_list_exprs(m, depth=0):
+        """texts of the expressions m takes the break list from (a private
+        accessor is followed to what it returns)"""
+        out = set()
+        for node in walk_own(m.node):
+            if isinstance(node, ast.Attribute) and node.attr == 'break_list':
+                out.add(norm(node).replace(' ', ''))
+        for c in A.calls_in(m):
+            for t in A.callees(m, c):
+                if t.cls is ctx and t is not m and depth < 2 and \
+                        t.name.startswith('_'):
+                    out |= break_list_exprs(t, depth + 1)
+        return out
+    got = [break_list_exprs(m) for m in (addb, fixb)]
+    ok = uses_top = all(g == {'self._loop_stack[-1].break_list'} for g in got)
     R.check(ctx, 'add_break / fix_break_addrs use the innermost loop context',
             ok and uses_top,
             'break bookkeeping does not use the top of the loop stack: a break '
